@@ -17,7 +17,7 @@ import (
 
 var c04Decl = &GenCfg{Depth: 3, Fanout: 2, MaxOpts: 4, MaxGroups: 2, NestGroups: 2, Kinds: AllKinds, Pos: true, PosPct: 35, PosReq: true, Ns: true,
 	Req: 10, Choices: true, FlagChoice: true, CbErr: true, Env: true, EnvNs: true, Defaults: true, OptArg: true, Hidden: true, Desc: true, Initial: true, Bases: true,
-	Unquote: true, Aliases: true, SubOpt: 40, NonASCII: true, NsDelims: []string{"-", "::", ""}, InCode: 10, NoFlag: true, ViaAdd: 8,
+	Unquote: true, Aliases: true, SubOpt: 40, NonASCII: true, NsDelims: []string{"-", "::", ""}, InCode: 10, NoFlag: true, ViaAdd: 8, StaticTwins: true,
 	ParserOpts: []flags.Options{flags.HelpFlag, flags.PassDoubleDash, flags.IgnoreUnknown, flags.PrintErrors, flags.PassAfterNonOption}}
 
 var c04Argv = &ArgvCfg{MaxItems: 3, WOpt: 30, WCluster: 10, WCmd: 5, WPlain: 10, WTerm: 4, WUnknown: 10, WJunk: 18, WRepeat: 8, BadVal: 30, Quote: 15, Help: 6}
